@@ -2,8 +2,29 @@ import Unsized.PtrHonestM6
 namespace Unsized.Ptr
 open Common Unsized Unsized.Text Unsized.Machine Unsized.PtrT Unsized.PtrM
 
+/-- **The address assumptions, stated once.** An account's data sits at address `base` of a 64-bit address
+space, `orig` is its `original_data_len` (so the allocation is `[base, base + orig + 10240)`):
+* `far`: the data does not sit in the first `orig + 10240` bytes of the address space (the pointer arithmetic
+  of `resize_notification` on a shrink, `addr - amount`, is done for pointers `≥ source` and must not wrap);
+* `big`: `base + 2 * (orig + 10240)` is below `2^64` (no pointer of the allocation, plus one more growth amount,
+  wraps — `wrapping_add`/`checked_add` in the adjust helpers then act as plain addition).
+`addrOk_solana` below is the non-vacuity example: the runtime's input region `0x4_0000_0000` with a 10 MiB
+account. -/
+def AddrOk (base orig : Nat) : Prop :=
+  orig + maxIncrease ≤ base ∧ base + 2 * (orig + maxIncrease) < Shape.usizeLim
+
+/-- Non-vacuity of `AddrOk` at realistic numbers: the first account of a transaction lives a few bytes above
+`MM_INPUT_START = 0x4_0000_0000`; the largest account is 10 MiB. -/
+example : AddrOk (0x400000000 + 96) (10 * 1024 * 1024) := by
+  unfold AddrOk maxIncrease Shape.usizeLim; omega
+
+/-- … and in fact every address of the input region and every legal account length. -/
+theorem addrOk_solana (base orig : Nat) (h1 : 0x400000000 ≤ base) (h2 : base < 0x500000000)
+    (h3 : orig ≤ 10 * 1024 * 1024) : AddrOk base orig := by
+  unfold AddrOk maxIncrease Shape.usizeLim; omega
+
 /-- The byte-level invariant of buffer `x` of the pointer machine (what C01/C02 maintain), plus the address
-assumptions: the buffer's addresses are its own, and do not wrap. -/
+assumptions: the buffer's addresses are its own, and do not wrap (`AddrOk`). -/
 structure PCtx (w : World) (x : Which) (s : Shape) (v : Val) : Prop where
   good : Good s v
   ok : s.ok = true
@@ -11,9 +32,13 @@ structure PCtx (w : World) (x : Which) (s : Shape) (v : Val) : Prop where
   bytes : (w.get x).mem.bytes = encode s v
   calm : Calm (w.get x).mem
   own : OwnsOwn w x
-  big : (w.get x).base + 2 * ((w.get x).mem.orig + maxIncrease) < Shape.usizeLim
-  /-- the data does not sit in the first `orig + 10240` bytes of the address space -/
-  far : (w.get x).mem.orig + maxIncrease ≤ (w.get x).base
+  addr : AddrOk (w.get x).base (w.get x).mem.orig
+
+theorem PCtx.big {w x s v} (c : PCtx w x s v) :
+    (w.get x).base + 2 * ((w.get x).mem.orig + maxIncrease) < Shape.usizeLim := c.addr.2
+
+/-- the data does not sit in the first `orig + 10240` bytes of the address space -/
+theorem PCtx.far {w x s v} (c : PCtx w x s v) : (w.get x).mem.orig + maxIncrease ≤ (w.get x).base := c.addr.1
 
 theorem PCtx.nu {w x s v} (c : PCtx w x s v) : s ≠ .unit := by
   intro h; have := c.ok; subst h; simp [Shape.ok, Shape.okAux] at this
